@@ -14,6 +14,9 @@
     goatoi <s>               → <int> ok | <int> err         strconv.Atoi
     gorematch <pat> <s>      → 0 | 1 | unsupported          regexp.MustCompile(pat).MatchString(s), subset ^items$
     goscan <bytes>           → <tok>,<tok>,… err=0|1        bufio.Scanner (ScanLines) tokens and whether Err() != nil
+    gosort <s>,<s>,…         → <s>,<s>,…                    sort.Strings
+    goreadfull <data> <fail> <n> → <bytes> nil|eof|unexpected|src rest=<k>    io.ReadFull on a source that ends cleanly or fails
+    gobufread <data> <delim> → <bytes> nil|eof rest=<k>     bufio.Reader.ReadBytes
 -/
 import AgeModel.Wire
 import AgeModel.GoSem
@@ -74,6 +77,28 @@ def handle (op : String) (args : List String) : Option String :=
       let toks := Go.scanner_Tokens s
       let t := if toks.isEmpty then "-" else ",".intercalate (toks.map fun t => if t.isEmpty then "e" else hex t)
       s!"{t} err={bit (Go.scanner_Err s).isSome}"
+  | "gosort" => some <|
+      match args with
+      | [a] =>
+        let parts := (Wire.splitOn a ',').map fun x => if x == "e" then some [] else unhex x
+        if parts.any Option.isNone then "bad-args"
+        else ",".intercalate ((Go.sort_Strings (parts.filterMap id)).map fun t => if t.isEmpty then "e" else hex t)
+      | _ => "bad-arity"
+  | "goreadfull" => some <|
+      match args with
+      | [d, f, n] => match unhex d, Wire.bool? f, n.toNat? with
+        | some d, some f, some n =>
+          let r := Go.io_ReadFull ⟨d, f⟩ (Int.ofNat n)
+          let e := if r.2.1 == none then "nil" else if r.2.1 == Go.io_EOF then "eof" else if r.2.1 == Go.io_ErrUnexpectedEOF then "unexpected" else "src"
+          s!"{hexOrDash r.1} {e} rest={r.2.2.data.length}"
+        | _, _, _ => "bad-args"
+      | _ => "bad-arity"
+  | "gobufread" => some <| b2 args fun d c =>
+      match c with
+      | [c] =>
+        let r := Go.bufio_ReadBytes d c
+        s!"{hexOrDash r.1} {if r.2.1 == none then "nil" else "eof"} rest={r.2.2.length}"
+      | _ => "bad-args"
   | _ => none
 
 end GoSem
